@@ -66,6 +66,49 @@ SectionOKSkip(T, vp, fs, n, dn, dd, curves, keep) ==
     /\ \A s \in used : SegAt(s) \in AllSegs(vp, fs, n, dn, dd)
     /\ \A s, t \in used : s # t => SegAt(s) # SegAt(t)
     /\ \A k \in CrossedFaces(vp, fs, n, dn, dd) : k <= keep => \E s \in used : SegAt(s) = FaceSeg(vp, fs[k], n, dn, dd)
+\* ---- a caller's curve tolerance on a single-loop section (t16 = tolerance in sixteenths of a unit).  The library hands the ordered
+\* crossing points to the curve constructor, which leaves out a point that is within the tolerance of the last point it kept.
+\* What a user relies on: the curve still visits exact crossing points, in the order of the loop, once round; every crossing point
+\* that was left out is within the tolerance of the vertex kept before it (so the curve stays that close to the true section),
+\* and the loop closes up to the tolerance.
+RECURSIVE SecRCmp(_, _, _, _)
+SecRCmp(a, b, c, d) ==          \* compare a/b with c/d (non-negative, b, d > 0) without forming products
+    LET qa == a \div b qc == c \div d ra == a % b rc == c % d IN
+    IF qa < qc THEN -1 ELSE IF qa > qc THEN 1 ELSE IF ra = 0 /\ rc = 0 THEN 0 ELSE IF ra = 0 THEN -1 ELSE IF rc = 0 THEN 1
+    ELSE SecRCmp(d, rc, b, ra)
+CrossD2(p, q) == LET v == VSub(VScale(q[2], p[1]), VScale(p[2], q[1])) IN <<VDot(v, v), (p[2] * q[2]) * (p[2] * q[2])>>
+CrossWithin(p, q, t16) == LET d == CrossD2(p, q) IN SecRCmp(d[1], d[2], t16 * t16, 256) <= 0
+SegNbrs(AS, e) == UNION {sg \ {e} : sg \in {t \in AS : e \in t}}
+RECURSIVE WalkLoop(_, _, _, _)
+WalkLoop(AS, prev, cur, acc) ==
+    LET nx == SegNbrs(AS, cur) \ {prev} IN
+    IF nx = {} THEN acc
+    ELSE LET n1 == CHOOSE f \in nx : TRUE IN IF n1 = acc[1] THEN acc ELSE WalkLoop(AS, cur, n1, Append(acc, n1))
+\* (TLC applies [k \in S |-> e] lazily, re-evaluating e at every application: tables that are read many times are made explicit tuples)
+RECURSIVE StrictFrom(_, _, _, _)
+StrictFrom(f, k, n, acc) == IF k > n THEN acc ELSE StrictFrom(f, k + 1, n, Append(acc, f[k]))
+Strict(f, n) == StrictFrom(f, 1, n, <<>>)
+TolLoopBody(L, pts, ce, m, t16) ==          \* L: the loop as a sequence of crossed edges starting at ce[1], pts: their crossing points
+    LET N == Len(L)
+        closedExact == ce[m] = ce[1]
+        pos == Strict([j \in 1..m |-> IF j = m /\ closedExact THEN N + 1
+                                      ELSE LET e == ce[j] IN IF \E k \in 1..N : L[k] = e THEN CHOOSE k \in 1..N : L[k] = e ELSE 0], m)
+        PtAt(k) == pts[((k - 1) % N) + 1] IN
+    /\ \A j \in 1..(m - 1) : pos[j] > 0 /\ pos[j] < pos[j + 1]              \* in loop order, once round
+    /\ \A j \in 1..(m - 1) : \A k \in (pos[j] + 1)..(pos[j + 1] - 1) : CrossWithin(PtAt(pos[j]), PtAt(k), t16)
+    /\ ~closedExact => \A k \in (pos[m] + 1)..(N + 1) : CrossWithin(PtAt(pos[m]), PtAt(k), t16)
+TolLoopOK(T, vp, fs, n, dn, dd, curves, t16) ==
+    LET C == CrossedEdges(vp, fs, n, dn, dd)
+        AS == {FaceSeg(vp, fs[k], n, dn, dd) : k \in CrossedFaces(vp, fs, n, dn, dd)} IN
+    /\ Len(curves) = 1
+    /\ LET c == curves[1] m == Len(c)
+            ce == Strict([j \in 1..m |-> EdgeOfVertexIn(C, T, vp, n, dn, dd, c[j])], m) IN
+        /\ m >= 2 /\ \A j \in 1..m : ce[j] # <<-1, -1>>
+        /\ \E second \in SegNbrs(AS, ce[1]) :
+              LET L == WalkLoop(AS, ce[1], second, <<ce[1], second>>) IN
+              /\ Len(L) = Cardinality(C)                                              \* (the section is one loop)
+              /\ TolLoopBody(L, Strict([k \in 1..Len(L) |-> CrossPoint(vp, L[k], n, dn, dd)], Len(L)), ce, m, t16)
+
 ClosedCurve(T, vp, fs, n, dn, dd, c) == LET ce == CurveEdges(T, vp, fs, n, dn, dd, c) IN ce[1] = ce[Len(c)]
 AllClosed(T, vp, fs, n, dn, dd, curves) == \A a \in 1..Len(curves) : ClosedCurve(T, vp, fs, n, dn, dd, curves[a])
 
